@@ -1,4 +1,5 @@
 import SuitVerif.IHexWrite
+import SuitVerif.IHexImage
 import SuitVerif.Props.C05
 /-! The text layer of a hex file: one line per record - a colon, upper-case hexadecimal, a line break.  The verifier's reader
 `IHex.read` on the text the writer model produces is the record-level reader on the records, hence gives back the block
@@ -90,5 +91,12 @@ theorem read_writeText (addr : Nat) (data : Bytes) (hb : addr + data.length ≤ 
     read (writeText addr data) = some (if data = [] then [] else [(addr, data)]) := by
   unfold writeText
   rw [read_textOf, readRecs_writeRecs addr data hb]
+
+/-- **file level, whole images**: the strict reader, on the text of the file the writer model produces for a canonical image (non-empty blocks,
+ascending, separated by at least one undefined address, below 2^32), yields exactly that image -/
+theorem read_writeImageText (c : List (Nat × Bytes)) (hsep : Separated c) (hb : ∀ s ∈ c, s.1 + s.2.length ≤ 2 ^ 32) :
+    read (writeImageText c) = some c := by
+  unfold writeImageText
+  rw [read_textOf, readRecs_writeImageRecs c hsep hb]
 
 end SuitVerif.IHex
